@@ -931,7 +931,21 @@ func (l *Lowerer) callSiteClauses(callee *types.Func, recv *Term, recvTyp types.
 	if top.contract == nil || top.contract.CallSites == nil || l.spec {
 		return
 	}
-	if !top.contract.hasCallSite(callee.Name()) {
+	// a call site can be named by the bare callee name, by "pkg.name" (package-level function) or by
+	// "Type.name" (method)
+	names := []string{callee.Name()}
+	if csig := callee.Type().(*types.Signature); csig.Recv() == nil {
+		names = append(names, "pkg."+callee.Name())
+	} else if n := namedOf(csig.Recv().Type()); n != "" {
+		names = append(names, n+"."+callee.Name())
+	}
+	any := false
+	for _, n := range names {
+		if top.contract.hasCallSite(n) {
+			any = true
+		}
+	}
+	if !any {
 		return
 	}
 	sig := callee.Type().(*types.Signature)
@@ -948,7 +962,11 @@ func (l *Lowerer) callSiteClauses(callee *types.Func, recv *Term, recvTyp types.
 			env["$"+n] = envEntry{args[i], atys[i]}
 		}
 	}
-	l.callSiteNamed(callee.Name(), env, ce)
+	for _, n := range names {
+		if top.contract.hasCallSite(n) {
+			l.callSiteNamed(n, env, ce)
+		}
+	}
 }
 
 // callSiteNamed: obligations (before) and ghost effects (registered to run after) that the enclosing
@@ -1451,16 +1469,45 @@ func (p *Prog) allClauses(ct *Contract) (reqs, enss, effs []*Clause) {
 	return
 }
 
+// decoderArgs: the names (in the contract's environment) of the packetDecoder parameters of a function.
+func (l *Lowerer) decoderArgs(fi *FuncInfo) []string {
+	var out []string
+	if fi.Sig == nil {
+		return nil
+	}
+	ct := l.p.contractFor(fi)
+	for i := 0; i < fi.Sig.Params().Len(); i++ {
+		pt := fi.Sig.Params().At(i).Type()
+		if n := namedOf(pt); n == "packetDecoder" || n == "realDecoder" {
+			name := fi.Sig.Params().At(i).Name()
+			if ct != nil && i < len(ct.Params) && ct.Params[i] != "" && ct.Params[i] != "_" {
+				name = ct.Params[i]
+			}
+			out = append(out, name)
+		}
+	}
+	return out
+}
+
 // havocModifies applies the frame of a contract at a call site (spec mode, env bound).
 func (l *Lowerer) havocModifies(ct *Contract, fi *FuncInfo, node ast.Node) {
 	mods, has := l.p.allModifies(ct)
-	if ct.Auto {
+	if ct.Auto || ct.DecoderFrame {
+		// everything but decoder state: the syntactic mod-set (field granularity, sound by construction);
+		// decoder state (abstract packetDecoder state and the realDecoder fields): only at the decoders passed
+		// in (checked by the callee's frame obligations); decoders created by the callee are new objects
 		ms := map[string]bool{}
 		for k := range l.p.modset(fi) {
 			ms[k] = true
 		}
-		ms["F.packetDecoder.*"] = true
-		l.emit(&Stmt{Kind: SHavocSet, Set: ms, Note: "call " + fi.Key + " (auto contract: syntactic mod-set + decoder state)"})
+		ms["$nodecoderstate"] = true
+		l.emit(&Stmt{Kind: SHavocSet, Set: ms, Note: "call " + fi.Key + " (syntactic mod-set, decoder state excepted)"})
+		for _, pdt := range l.decoderArgs(fi) {
+			if en, ok := l.lookupEnv(pdt); ok {
+				l.emit(&Stmt{Kind: SHavocObj, Struct: "packetDecoder", Ref: en.t, Note: "decoder state"})
+				l.emit(&Stmt{Kind: SHavocObj, Struct: "realDecoder", Ref: en.t, Note: "decoder state"})
+			}
+		}
 		return
 	}
 	if !has {
